@@ -113,6 +113,14 @@ MORE4 = {
  "C16": " `Self` outside a class and `self: T` are diagnostics; the grammar's ordered choices do not parse a nesting construct twice (certificates over the extracted rule graph, checked by the verifier). `mscript compile` calls the compiler on a thread whose stack covers 4096 levels of recursion (per-level cost assumed, D103).",
  "C17": " Known finding D102 (the trace also lists block frames).",
 }
+MORE5 = {
+ "C02": " A map type whose key type may hold a map is a diagnostic (nothing the interpreter cannot hash); a class declares each member name once.",
+ "C10": " The variables a place is rooted at are followed through `get`, `or` and parenthesised values.",
+ "C11": " What a by-name import binds (known finding D105: a copy, not the module's variable).",
+ "C12": " A failing `get` names the source position of that `get`.",
+}
+for _k, _v in MORE5.items():
+    MORE4[_k] = MORE4.get(_k, "") + _v
 for _k, _v in MORE4.items():
     MORE3[_k] = MORE3.get(_k, "") + _v
 for _k, _v in MORE3.items():
